@@ -22,8 +22,8 @@ ASSUMPTIONS = [
     "tie order among equal elements in Vector.sort is not pinned by the statement and not checked",
 ]
 BOUND = {
-    "quick": "length 0..4 (0..5 for alphabets <= 4 values) over 'quick' alphabets of f8,i8,u1,b1,str,U,D,us,obj(int|None),obj(bool|None)",
-    "thorough": "length 0..5 (0..6 for alphabets <= 4 values) over 'thorough' alphabets",
+    "quick": "length 0..4 (0..5 for alphabets <= 4 values) over 'quick' alphabets of f8,i8,u1,b1,str,U,D,us,obj(int|None),obj(bool|None); marker-like text, extreme dates, int64 ends, int32 / float32, both sides of the int32 range, strings differing in a trailing NUL; array forms and provenances (strided, other byte order, NumPy StringDType, product of concat; thorough: more)",
+    "thorough": "length 0..5 (0..6 for alphabets <= 4 values) over 'thorough' alphabets; plus the additions listed for the quick tier",
 }
 TIME_CAP = {"quick": 240, "thorough": 3000}
 
